@@ -17,6 +17,12 @@ RemoveSuccessors, Sort, Copy.
  M4  the recorded real runs (observed sorted lists) are handed back to TLC
      (specs/DiGraphSpec_Trace.tla), which re-executes the spec actions and decides
      IsValidOrder for every observed list with the spec's own operator.
+ Known deviation: remove_successors_nodes can spin forever inside DiGraph.sorting.  The
+     replay uses a DiGraph subclass whose only change is to raise when a sorting round
+     makes no progress (= the real loop never ends).  Such a run is handed to TLC together
+     with the lists the real graph held before the call; the named as-built model
+     RmsAsBuilt (DiGraphSpec_Trace) predicts completes / diverges / raises, and
+     ctx.judge(..., known_id="C37-remove-successors", asbuilt=<prediction>) decides.
 """
 import json
 import random
@@ -400,7 +406,7 @@ def run(ctx):
         f_b1 = ex.submit(bfs, ctx, 3, 6 if th else 5, "empty")
         f_b2 = ex.submit(bfs, ctx, 4, 3 if th else 2, "dags", 12 if th else 2)
         sims = [ex.submit(simulate, ctx, 6, 12, 300 if th else 60, ctx.seed * 100 + k) for k in range(2 if th else 1)]
-        f_m1s = ex.submit(design_check, ctx, 5, "num=3000") if th else None
+        f_m1s = ex.submit(design_check, ctx, 5, "num=200") if th else None
         f_m1.result()
         if f_m1s:
             f_m1s.result()
